@@ -228,6 +228,8 @@ class AbiAnalysis:
         self.report, self.stats = report, stats
         self.seen = set()
         self.args_read = set()
+        self.ptr_args = set()            # indices of pointer parameters
+        self.const_args = set()          # ... of those declared pointer-to-const
 
     def rep(self, a, sig, what):
         if (sig, a) in self.seen:
@@ -246,12 +248,13 @@ class AbiAnalysis:
         regs["rsp"] = ("SP", 0)
         return dict(regs=regs, vec={}, fl={"C": False, "O": False, "Z": False}, df=False, stack={}, bad_sp=False,
                     af=frozenset(ARG_REGS[:self.arity]),      # argument registers that may still hold the caller's argument
-                    cfp=frozenset())                          # instructions whose carry flag may be the current CF
+                    cfp=frozenset(),                          # instructions whose carry flag may be the current CF
+                    pv={r: frozenset([i]) for i, r in enumerate(ARG_REGS[:self.arity]) if i in self.ptr_args})   # pointer-argument provenance
 
     @staticmethod
     def copy(st):
         return dict(regs=dict(st["regs"]), vec=dict(st["vec"]), fl=dict(st["fl"]), df=st["df"], stack=dict(st["stack"]), bad_sp=st["bad_sp"],
-                    af=st.get("af", frozenset()), cfp=st.get("cfp", frozenset()))
+                    af=st.get("af", frozenset()), cfp=st.get("cfp", frozenset()), pv=dict(st.get("pv", {})))
 
     def join(self, a, b, at):
         ch = False
@@ -261,6 +264,11 @@ class AbiAnalysis:
         if not b.get("cfp", frozenset()) <= a.get("cfp", frozenset()):
             a["cfp"] = a.get("cfp", frozenset()) | b["cfp"]
             ch = True
+        for r_, v_ in b.get("pv", {}).items():
+            n_ = a.setdefault("pv", {}).get(r_, frozenset()) | v_
+            if n_ != a["pv"].get(r_, frozenset()):
+                a["pv"][r_] = n_
+                ch = True
         for r in GPR:
             if r == "rsp":
                 if a["regs"]["rsp"] != b["regs"]["rsp"]:
@@ -350,6 +358,35 @@ class AbiAnalysis:
         if op.startswith("NOOP") or mn.startswith("nop"):
             return                        # multi-byte NOP: its memory operand is padding, nothing is read
         pre_vals = dict(st["regs"])
+        # ---- provenance of pointer arguments; a store through an address built only from pointer-to-const arguments writes an input
+        pv = st.setdefault("pv", {})
+        if "store" in ins["f"] and self.const_args:
+            for m in mems:
+                srcs = frozenset()
+                for key in ("base", "index"):
+                    if key in m:
+                        srcs |= pv.get(m[key]["top"], frozenset())
+                if srcs and srcs <= self.const_args:
+                    self.rep(a, "store-through-const-arg:%s" % ",".join(ARG_REGS[i] for i in sorted(srcs)),
+                             "this instruction stores to memory addressed only through argument %s, which the C prototype declares pointer-to-const: "
+                             "the kernel writes into a source operand" % ", ".join("%d (%s)" % (i + 1, ARG_REGS[i]) for i in sorted(srcs)))
+        if defs:
+            load = "load" in ins["f"] and not op.startswith("LEA")
+            inherited = frozenset()
+            if not load and not (ZERO_IDIOM.match(mn) and len({x["top"] for x in ins["uses"]}) == 1 and not mems):
+                for x in uses:
+                    inherited |= pv.get(x["top"], frozenset())
+                if op.startswith("LEA"):
+                    for m in mems:
+                        for key in ("base", "index"):
+                            if key in m:
+                                inherited |= pv.get(m[key]["top"], frozenset())
+            for x in defs:
+                if x["top"] in GPR and x["top"] != "rsp":
+                    if inherited:
+                        pv[x["top"]] = inherited
+                    else:
+                        pv.pop(x["top"], None)
         # which arguments does the kernel look at?  (syntactic: any read of a register that may still hold the argument)
         af = st.get("af", frozenset())
         if af:
@@ -668,6 +705,13 @@ def run(prop="C14", tier="quick"):
                 arity, rb = min(len(p["params"]), 6), ret_bits(p["ret"])
             found = []
             an = AbiAnalysis(k, name, addr, arity, rb, lambda a, sig, what: found.append((a, sig, what)), res["stats"])
+            if p is not None and src != fixture:
+                for i, q in enumerate(p["params"][:6]):
+                    ct = q.get("ct", "") if isinstance(q, dict) else ""
+                    if "*" in ct:
+                        an.ptr_args.add(i)
+                        if ct.strip().startswith("const"):
+                            an.const_args.add(i)
             ood = an.run()
             res["stats"]["entries_analysed"] += 1
             if p is not None and src != fixture:
